@@ -416,8 +416,11 @@ func c05Chain(r *RunCtx, c int) error {
 	}
 	defer e.Close()
 	sp := e.App.StorageKeeper.GetParams(e.Ctx)
-	sp.CheckWindow = PickOne(p, []int64{2, 2, 3, 5})
+	sp.CheckWindow = PickOne(p, []int64{2, 2, 3, 5, 7})
 	sp.ProofWindow = PickOne(p, []int64{2, 3, 4})
+	if c%3 == 1 { // the usual relation: proofs are due more often than rewards are settled
+		sp.CheckWindow, sp.ProofWindow = 5, PickOne(p, []int64{2, 3})
+	}
 	e.App.StorageKeeper.SetParams(e.Ctx, sp)
 	users := []sdk.AccAddress{Acct(1), Acct(2), Acct(3)}
 	for _, u := range users {
@@ -441,8 +444,12 @@ func c05Chain(r *RunCtx, c int) error {
 			data := []byte(fmt.Sprintf("kept-file-%d", c))
 			root, item, pj := c05OneChunkFile(data)
 			exp := e.Height + 14400*40
-			res := e.Run(&storagetypes.MsgPostFile{Creator: users[0].String(), Merkle: root, FileSize: int64(len(data)), MaxProofs: 3, Expires: exp, Note: "{}"})
+			res := e.Run(&storagetypes.MsgPostFile{Creator: users[0].String(), Merkle: root, FileSize: int64(len(data)), MaxProofs: 3, Expires: exp, Note: "{}",
+				ProofInterval: PickOne(p, []int64{0, sp.ProofWindow + 1, sp.CheckWindow - 1, sp.CheckWindow + 1, 1 << 62, -3})})
 			r.Hist("chain_msgs", "storage.MsgPostFile(directed):"+res.Out)
+			// a provider that registers, proves, leaves, comes back and proves again, and then goes silent
+			res = e.Run(&storagetypes.MsgInitProvider{Creator: users[2].String(), Ip: "https://leaver.example.com", TotalSpace: 1 << 40})
+			r.Hist("chain_msgs", "storage.MsgInitProvider(directed):"+res.Out)
 			files = append(files, posted{root, users[0].String(), e.Height, item, pj})
 			// a second small file with an extreme (but valid) replication count; one account proves it once and then goes
 			// silent, so a later reward block has to remove it
@@ -454,9 +461,32 @@ func c05Chain(r *RunCtx, c int) error {
 				res = e.Run(&storagetypes.MsgPostProof{Creator: users[2].String(), Item: item2, HashList: pj2, Merkle: root2, Owner: users[0].String(), Start: e.Height, ToProve: 0})
 				r.Hist("chain_msgs", "storage.MsgPostProof(directed, once):"+res.Out)
 			}
-		} else if p.Chance(2, 3) {
+			// a third file asking for a proof interval between the two windows (where they leave room), proved once
+			data3 := []byte(fmt.Sprintf("slow-file-%d", c))
+			root3, item3, pj3 := c05OneChunkFile(data3)
+			iv := sp.ProofWindow + 1
+			if c%2 == 0 {
+				iv = sp.CheckWindow - 1
+			}
+			res = e.Run(&storagetypes.MsgPostFile{Creator: users[0].String(), Merkle: root3, FileSize: int64(len(data3)), MaxProofs: 3, Expires: exp, Note: "{}", ProofInterval: iv})
+			r.Hist("chain_msgs", "storage.MsgPostFile(directed, interval between the windows):"+res.Out)
+			if res.Out == OutOk {
+				res = e.Run(&storagetypes.MsgPostProof{Creator: users[1].String(), Item: item3, HashList: pj3, Merkle: root3, Owner: users[0].String(), Start: e.Height, ToProve: 0})
+				r.Hist("chain_msgs", "storage.MsgPostProof(directed, slow file):"+res.Out)
+			}
+		} else if b <= 5 || p.Chance(2, 3) {
 			f := files[0]
-			for _, who := range []string{Spell(users[1], true), Spell(users[2], p.Chance(1, 2))} {
+			whos := []string{Spell(users[1], true)}
+			switch {
+			case b <= 2 || b == 4:
+				whos = append(whos, users[2].String())
+			case b == 3:
+				res := e.Run(&storagetypes.MsgShutdownProvider{Creator: users[2].String()})
+				r.Hist("chain_msgs", "storage.MsgShutdownProvider(directed):"+res.Out)
+				res = e.Run(&storagetypes.MsgInitProvider{Creator: users[2].String(), Ip: "https://leaver.example.com", TotalSpace: 1 << 40})
+				r.Hist("chain_msgs", "storage.MsgInitProvider(directed, again):"+res.Out)
+			}
+			for _, who := range whos {
 				res := e.Run(&storagetypes.MsgPostProof{Creator: who, Item: f.item, HashList: f.proof, Merkle: f.root, Owner: f.owner, Start: f.start, ToProve: 0})
 				r.Hist("chain_msgs", "storage.MsgPostProof(directed):"+res.Out)
 				trace = append(trace, map[string]interface{}{"block": e.Height, "msg": "storage.MsgPostProof", "creator": who, "file": 0, "out": res.Out})
@@ -483,7 +513,7 @@ func c05Chain(r *RunCtx, c int) error {
 				case 1:
 					exp = PickOne(p, ext)
 				}
-				pm := &storagetypes.MsgPostFile{Creator: us, Merkle: root, FileSize: size, ProofType: 0, MaxProofs: PickOne(p, []int64{1, 3, 1 << 40, 0, -1, 1 << 62}), Expires: exp, Note: "{}"}
+				pm := &storagetypes.MsgPostFile{Creator: us, Merkle: root, FileSize: size, ProofType: 0, MaxProofs: PickOne(p, []int64{1, 3, 1 << 40, 0, -1, 1 << 62}), Expires: exp, Note: "{}", ProofInterval: PickOne(p, []int64{0, 1, 3, 4, 6, 75, -1, 1 << 62})}
 				msg = pm
 				files = append(files, posted{root, us, e.Height, item, pj})
 			case 2: // plans with extreme sizes and durations
